@@ -17,11 +17,11 @@ def conv {α : Type} (f : α → String) (r : Res (Located α) × Nat) : Out :=
 def endian (s : String) : Bin.Endian := if s.endsWith "le" then .little else .big
 
 /-- is this parser one of the token-level ones (failure must not move the cursor)? -/
-def tokenLevel (p : String) : Bool := !(p.startsWith "obj:")
+def tokenLevel (p : String) : Bool := !(p.startsWith "obj:" || p.startsWith "@obj:")
 
 /-- does the re-parse clause apply?  Scanners return a skip count whose span is the skipped
     text (not a spelling of the value), so the clause is not applicable to them. -/
-def reparseApplies (p : String) : Bool := !(p.startsWith "scan:")
+def reparseApplies (p : String) : Bool := !(p.startsWith "scan:" || p.startsWith "@scan:")
 
 /-- `BinaryScanner` over `ParseBuffer::scan` (empty tag: `windows(0)` panics) -/
 def scanP (tag : Bytes) : P Nat := fun s i =>
@@ -39,8 +39,10 @@ def matchP (tag : Bytes) : P Bool := fun s i =>
   | (true, j) => (.ok ⟨true, i, j⟩, j)
   | (false, _) => (.err .guard, i)
 
-def runParser (p : String) (s : Bytes) (i : Nat) : Option Out :=
+def runParser (p0 : String) (s : Bytes) (i : Nat) : Option Out :=
   let u := fun (_ : Unit) => "unit"
+  -- '@' prefix: the implementation runs on a restricted view; by C17 the model is the same
+  let p := if p0.startsWith "@" then (p0.drop 1).toString else p0
   match p.splitOn ":" with
   | ["wsn0"] => some (conv u (wsNoEOL false s i))
   | ["wsn1"] => some (conv u (wsNoEOL true s i))
@@ -105,7 +107,7 @@ def model (line : String) : String :=
 
 /-- shift the `start` field of a stream-content value (location metadata inside the value) -/
 def normVal (p : String) (start : Nat) (val : List String) : List String :=
-  if p.startsWith "sc:" then
+  if p.startsWith "sc:" || p.startsWith "@sc:" then
     match val with
     | st :: rest => toString (st.toNat! - start) :: rest
     | [] => []
@@ -209,6 +211,7 @@ def gen (seed n : Nat) (tier : String) (emit : String → IO Unit) : IO Unit := 
     let (i, r5) := if c == 0 then r4.nat (s.length + 1) else (0, r4)
     r := r5
     emit s!"{p} {hexOfBytes s} {i}"
+    emit s!"@{p} {hexOfBytes s} {i}"
 
 /-- non-trivial: buffer of at least two bytes, or a non-zero cursor -/
 def nontrivial (line : String) : Bool :=
